@@ -26,7 +26,10 @@ DEST_STATES = {
     "dir_full": ("d", [dict(t="d", p="d", m=0o750), dict(t="f", p="d/inner", c=b"x", m=0o644)]),
     # a directory tree: empty sub-directories (alone and in a chain), files beside them, a link inside
     "dir_tree": ("d", [dict(t="d", p="d", m=0o755), dict(t="d", p="d/empty", m=0o755), dict(t="d", p="d/chain", m=0o700), dict(t="d", p="d/chain/in", m=0o755),
-                       dict(t="d", p="d/chain/in/most", m=0o755), dict(t="d", p="d/full", m=0o755), dict(t="f", p="d/full/f", c=b"x", m=0o600), dict(t="l", p="d/ln", to="d/full")]),
+                       dict(t="d", p="d/chain/in/most", m=0o755), dict(t="d", p="d/full", m=0o755), dict(t="f", p="d/full/f", c=b"x", m=0o600), dict(t="l", p="d/ln", to="d/full"),
+                       # directories without owner write / search permission (a package cache unpacked read-only)
+                       dict(t="d", p="d/ro", m=0o555), dict(t="d", p="d/ro/sub", m=0o500), dict(t="f", p="d/ro/sub/f", c=b"y", m=0o444)]),
+    "dir_readonly": ("d", [dict(t="d", p="d", m=0o555), dict(t="d", p="d/sub", m=0o555)]),
     "link_file": ("d", [dict(t="f", p="tf", c=b"other", m=0o640), dict(t="l", p="d", to="tf")]),
     "link_dir": ("d", [dict(t="d", p="td", m=0o755), dict(t="l", p="d", to="td")]),
     "dangling": ("d", [dict(t="l", p="d", to="nowhere")]),
@@ -52,6 +55,9 @@ TEMPLATE_SRC = {
     "undefined": ([dict(t="f", p="s", c=b"{{ nope }}", m=0o644)], None),
     "empty": ([dict(t="f", p="s", c=b"", m=0o644)], ""),
     "big": ([dict(t="f", p="s", c=("w" * 8191 + "\u00e9\u00e9 {{ v }}\n").encode(), m=0o644)], "w" * 8191 + "\u00e9\u00e9 val\n"),
+    # block tags on lines of their own: the line breaks around them are part of the text (no trim_blocks / lstrip_blocks)
+    "blocks": ([dict(t="f", p="s", c=b"# hosts\n{% for h in ['a', 'b'] %}\n{{ h }} ok\n  {% endfor %}\nend {{ v }}\n{% if true %}\n\nlast\n{% endif %}", m=0o644)],
+               "# hosts\n\na ok\n  \nb ok\n  \nend val\n\n\nlast\n"),
     "binary": ([dict(t="f", p="s", c=b"\xff\xfe", m=0o644)], None),
     "m044": ([dict(t="f", p="s", c=b"hello\n", m=0o044)], "hello\n"),
     "dir": ([dict(t="d", p="s", m=0o755)], None),
@@ -132,6 +138,8 @@ def task_yaml(t, check_kw):
             lines.append("  update_cache: true")
         if t["upgrade"]:
             lines.append("  upgrade: true")
+        if t.get("force"):
+            lines.append("  force: true")
         lines.append("register: reg")
     if check_kw == "false":
         lines.append("check_mode: false")      # with --check on the command line the task is STILL in check mode
